@@ -328,7 +328,7 @@ func runC03Cycle(sc *c03Scenario, tc *testClient, curLog *atomic.Pointer[hLog], 
 	case "eof":
 		conn.EOF()
 	case "readerr":
-		conn.FailRead(errors.New("injected"), false)
+		conn.FailRead(ircsim.ReadError(len(sc.Verbs)), false) // (plain / timed out / reset / unexpected EOF, by scenario)
 	case "close":
 		go tc.C.Close()
 	}
